@@ -208,6 +208,18 @@ theorem simple_table_roundtrip (isTsv : Bool) (field : String) (data : List (Int
 theorem sortById_perm {α : Type} (l : List (Int × α)) : (sortById l).Perm l :=
   Lemmas.sortById_perm l
 
+/-- `save_metadata` (= `_write_tsv_simple`) followed by `load_metadata` (= the cluster-table reader
+`read_tsv` + regrouping by field, phylib/io/model.py:118-141) returns {field: {cluster_id: value}} with
+the saved entries.  Beyond the hypotheses of `simple_table_roundtrip`: the ids are distinct (a
+dictionary), the field is not called `cluster_id`, and no value is the empty string — `read_tsv` drops
+empty cells, so such an entry is lost (and a table holding only empty values loads as `{}`). -/
+theorem metadata_roundtrip (isTsv : Bool) (field : String) (data : List (Int × SVal))
+    (hfield : NoBreak field.toList) (hcsv : isTsv = false → '\t' ∉ field.toList) (hne : field ≠ "cluster_id")
+    (hvals : ∀ p ∈ data, SValOK p.2 ∧ renderS p.2 ≠ "") (hids : (data.map (·.1)).Nodup) :
+    loadMetadata (writeTsvSimple isTsv field data) =
+      some (if data = [] then [] else [(field, (sortById data).map fun p => (Num.int p.1, obsS p.2))]) :=
+  Lemmas.metadata_roundtrip isTsv field data hfield hcsv hne hvals hids
+
 /-- Parameter files: `write_python` followed by `read_python` returns the dictionary that was written,
 with the variable names lower-cased — None, booleans, integers, floats (as `float(repr(x))`), strings,
 and lists / tuples (empty, one element `(x,)`, several) of those.  Hypotheses = the domain on which
@@ -266,6 +278,8 @@ example : writeTsvSimple false "group" [(3, .text "a,b"), (-1, .int 5), (2, .flo
     "cluster_id,group\r\n-1,5\r\n2,0.25\r\n3,\"a,b\"\r\n".toList ∧
     readTsvSimple "cluster_id,group\r\n-1,5\r\n2,0.25\r\n3,\"a,b\"\r\n".toList =
       some ("group", [(-1, .int 5), (2, .float false 25 (-2)), (3, .text "a,b")]) := by decide
+example : loadMetadata (writeTsvSimple true "group" [(3, .text "good"), (-1, .text "mua"), (2, .text "")]) =
+    some [("group", [(.int (-1), .text "mua"), (.int 3, .text "good")])] := by decide +kernel
 example : FloatLit "30000.0" ∧ FloatLit "1e-05" ∧ FloatLit "-2.5" :=
   ⟨⟨false, 300000, -1, by decide⟩, ⟨false, 1, -5, by decide⟩, ⟨true, 25, -1, by decide⟩⟩
 example : csvParseLine ',' (csvRow ',' ["a,b".toList, [], "q\"r".toList]) = ["a,b".toList, [], "q\"r".toList] ∧
